@@ -14,7 +14,9 @@ Inductive qkind :=
 | QNrc (dt : Z) (values : list Z)
 | QDop (dop_id dop_name : Z) (unit : option qunit) (phys : option Z) (extra : qextra)
 | QOther.
-Record qpar := mkQ { q_name : Z; q_type : Z; q_pos : option Z; q_bits : option Z; q_sem : option Z; q_kind : qkind }.
+(* (q_bitpos, the BIT-POSITION, is compared since the fix commit) *)
+Record qpar := mkQ { q_name : Z; q_type : Z; q_pos : option Z; q_bits : option Z; q_sem : option Z; q_kind : qkind;
+                     q_bitpos : option Z }.
 
 Definition oZ_eqb (a b : option Z) : bool :=
   match a, b with Some x, Some y => x =? y | None, None => true | _, _ => false end.
@@ -29,7 +31,7 @@ Fixpoint lZ_eqb (a b : list Z) : bool :=
 Definition L_name := 1. Definition L_pos := 2. Definition L_bits := 3. Definition L_sem := 4. Definition L_type := 5.
 Definition L_dt := 6. Definition L_value := 7. Definition L_values := 8. Definition L_dop := 9. Definition L_dopname := 10.
 Definition L_unitname := 11. Definition L_unitdisp := 12. Definition L_unitobj := 13. Definition L_phys := 14.
-Definition L_const := 15. Definition L_default := 16.
+Definition L_const := 15. Definition L_default := 16. Definition L_bitpos := 17.
 
 Definition when (b : bool) (l : Z) : list Z := if b then [l] else [].
 
@@ -73,13 +75,17 @@ Definition cmp_kind (k1 k2 : qkind) : list Z :=
   | _, _ => []
   end.
 
+(* the bit position, then what depends on the kind of the parameter *)
+Definition cmp_tail (p1 p2 : qpar) : list Z :=
+  when (negb (oZ_eqb (q_bitpos p1) (q_bitpos p2))) L_bitpos ++ cmp_kind (q_kind p1) (q_kind p2).
+
 Definition compare_params (p1 p2 : qpar) : list Z :=
   when (negb (q_name p1 =? q_name p2)) L_name ++
   when (negb (oZ_eqb (q_pos p1) (q_pos p2))) L_pos ++
   when (negb (oZ_eqb (q_bits p1) (q_bits p2))) L_bits ++
   when (negb (oZ_eqb (q_sem p1) (q_sem p2))) L_sem ++
   when (negb (q_type p1 =? q_type p2)) L_type ++
-  cmp_kind (q_kind p1) (q_kind p2).
+  cmp_tail p1 p2.
 
 (* compare_services, per message: the parameters are compared by position if the lists are equally long,
    else the whole list is reported (None) *)
@@ -112,7 +118,8 @@ Definition kind_of (t : tok) : qkind :=
   else QOther.
 Definition par_of (t : tok) : qpar :=
   let l := tl t in
-  mkQ (tz (tnth l 0)) (tz (tnth l 1)) (oz_of (tnth l 2)) (oz_of (tnth l 3)) (oz_of (tnth l 4)) (kind_of (tnth l 5)).
+  mkQ (tz (tnth l 0)) (tz (tnth l 1)) (oz_of (tnth l 2)) (oz_of (tnth l 3)) (oz_of (tnth l 4)) (kind_of (tnth l 5))
+      (oz_of (tnth l 6)).
 
 (* case: [new parameter list, old parameter list] -> [] (lists of different length) or [[[name, labels], ...]] *)
 Definition run_case (t : tok) : tok :=
